@@ -100,7 +100,7 @@ def run(chk):
     work = os.path.join(chk.tmp, "spec")
     V.copy_specs(specsrc, work)
     quick = chk.quick()
-    TLC_T = 1500 if quick else 3000
+    TLC_T = 1500 if quick else 5400
 
     # ------------------------------------------------------------------ 1. design level + generators (parallel)
     def mcjob(name, cfg, workers, expect=False):
@@ -277,6 +277,14 @@ def run(chk):
             for e in errs:
                 chk.inconclusive.append("Tracing: " + e)
 
+    perkey = {}
+
+    def report(key, what, replay):
+        # at most 3 replay files per input class; the rest is counted in the evidence
+        perkey[key] = perkey.get(key, 0) + 1
+        if perkey[key] <= 3:
+            chk.violation(key, what, replay)
+
     for seg, pos, v in failures:
         att = seg[pos]
         names = [n for k, n in INVS if not v.get(k, True)]
@@ -292,7 +300,7 @@ def run(chk):
                     kind, shape = classify_causal(seg, att, pair)
                     keys.setdefault("C18:Causal:edge=%s:writer=%s" % (kind, shape), pair)
                 for key, pair in keys.items():
-                    chk.violation(key, "case %s, attempt %s of context %s: the reader's logged clock does not dominate the clock "
+                    report(key, "case %s, attempt %s of context %s: the reader's logged clock does not dominate the clock "
                                   "logged for the attempt that wrote token %s (operation %s of the attempt); writer medium/shape: %s" % (
                                       seg[0].get("id"), att.get("k"), att.get("c"), pair[1], pair[0], key.split(":", 2)[2]),
                                   dict(replay, failing=key))
@@ -304,7 +312,8 @@ def run(chk):
                         "OldValueHints": "a previous-value hint is missing or is not the previous value of the variable",
                         "ReplayLocals": "a logged read of archetype-local state is not what replaying the committed writes gives",
                         "OwnClock": "the archetype's own clock component is not the number of the attempt"}[name]
-                chk.violation(key, "case %s, attempt %s of context %s: %s" % (seg[0].get("id"), att.get("k"), att.get("c"), what), replay)
+                report(key, "case %s, attempt %s of context %s: %s" % (seg[0].get("id"), att.get("k"), att.get("c"), what), replay)
+    chk.notes["rejected_attempts_by_input_class"] = perkey
 
     # ------------------------------------------------------------------ 4. M-level conformance (drift only)
     def conform(args):
